@@ -196,6 +196,100 @@ impl<'de, 'a> de::Deserializer<'de> for De<'a> {
     }
 }
 
+// ---------------------------------------------------------------- typed (non-self-describing) deserializer
+// Models a format such as bincode, which carries no type tags: the value is only recoverable if the impl asks for
+// exactly the shape that was written (tuple of 2, i8, seq, u32). `deserialize_any` and every other request fail.
+struct TypedDe<'a>(&'a Tok);
+
+macro_rules! typed_reject {
+    ($($name:ident)*) => { $(
+        fn $name<V: Visitor<'de>>(self, _v: V) -> Result<V::Value, Err_> {
+            Err(Err_(format!("typed format: {} requested for {:?}", stringify!($name), self.0.kind())))
+        }
+    )* };
+}
+
+impl Tok {
+    fn kind(&self) -> &'static str {
+        match self {
+            Tok::U32(_) => "u32",
+            Tok::U64(_) => "u64",
+            Tok::I8(_) => "i8",
+            Tok::I64(_) => "i64",
+            Tok::Str(_) => "str",
+            Tok::Seq(..) => "seq",
+            Tok::Tuple(..) => "tuple",
+            Tok::Other(_) => "other",
+        }
+    }
+}
+
+struct TypedSeq<'a>(std::slice::Iter<'a, Tok>, Option<usize>);
+impl<'de, 'a> SeqAccess<'de> for TypedSeq<'a> {
+    type Error = Err_;
+    fn next_element_seed<T: DeserializeSeed<'de>>(&mut self, seed: T) -> Result<Option<T::Value>, Err_> {
+        match self.0.next() {
+            None => Ok(None),
+            Some(t) => seed.deserialize(TypedDe(t)).map(Some),
+        }
+    }
+    fn size_hint(&self) -> Option<usize> {
+        self.1
+    }
+}
+
+impl<'de, 'a> de::Deserializer<'de> for TypedDe<'a> {
+    type Error = Err_;
+    fn is_human_readable(&self) -> bool {
+        false
+    }
+    fn deserialize_u32<V: Visitor<'de>>(self, v: V) -> Result<V::Value, Err_> {
+        match self.0 {
+            Tok::U32(x) => v.visit_u32(*x),
+            t => Err(Err_(format!("typed format: u32 requested for {}", t.kind()))),
+        }
+    }
+    fn deserialize_i8<V: Visitor<'de>>(self, v: V) -> Result<V::Value, Err_> {
+        match self.0 {
+            Tok::I8(x) => v.visit_i8(*x),
+            t => Err(Err_(format!("typed format: i8 requested for {}", t.kind()))),
+        }
+    }
+    fn deserialize_seq<V: Visitor<'de>>(self, v: V) -> Result<V::Value, Err_> {
+        match self.0 {
+            Tok::Seq(h, items) => v.visit_seq(TypedSeq(items.iter(), *h)),
+            t => Err(Err_(format!("typed format: seq requested for {}", t.kind()))),
+        }
+    }
+    fn deserialize_tuple<V: Visitor<'de>>(self, len: usize, v: V) -> Result<V::Value, Err_> {
+        match self.0 {
+            Tok::Tuple(n, items) if *n == len && items.len() == len => v.visit_seq(TypedSeq(items.iter(), Some(len))),
+            t => Err(Err_(format!("typed format: tuple({}) requested for {}", len, t.kind()))),
+        }
+    }
+    fn deserialize_tuple_struct<V: Visitor<'de>>(self, _n: &'static str, _l: usize, _v: V) -> Result<V::Value, Err_> {
+        Err(Err_("typed format: tuple_struct requested".into()))
+    }
+    fn deserialize_struct<V: Visitor<'de>>(self, _n: &'static str, _f: &'static [&'static str], _v: V) -> Result<V::Value, Err_> {
+        Err(Err_("typed format: struct requested".into()))
+    }
+    fn deserialize_enum<V: Visitor<'de>>(self, _n: &'static str, _f: &'static [&'static str], _v: V) -> Result<V::Value, Err_> {
+        Err(Err_("typed format: enum requested".into()))
+    }
+    fn deserialize_unit_struct<V: Visitor<'de>>(self, _n: &'static str, _v: V) -> Result<V::Value, Err_> {
+        Err(Err_("typed format: unit_struct requested".into()))
+    }
+    fn deserialize_newtype_struct<V: Visitor<'de>>(self, _n: &'static str, v: V) -> Result<V::Value, Err_> {
+        v.visit_newtype_struct(self)
+    }
+    typed_reject! {
+        deserialize_any deserialize_bool deserialize_i16 deserialize_i32 deserialize_i64 deserialize_i128
+        deserialize_u8 deserialize_u16 deserialize_u64 deserialize_u128 deserialize_f32 deserialize_f64
+        deserialize_char deserialize_str deserialize_string deserialize_bytes deserialize_byte_buf
+        deserialize_option deserialize_unit deserialize_map deserialize_identifier deserialize_ignored_any
+    }
+}
+
 fn expect_u(n: &Nat) -> Tok {
     let d = n.to_u32_digits();
     Tok::Seq(Some(d.len()), d.into_iter().map(Tok::U32).collect())
@@ -223,6 +317,16 @@ fn ser_case(neg: bool, a: &[u64]) -> Verdict {
     match must_return("BigInt::deserialize", || BigInt::deserialize(De(&wanti)))? {
         Ok(v) => ctx(eq_bi(&v, &r), "deserialize(serialize(BigInt))")?,
         Err(e) => return Err(format!("BigInt::deserialize rejected its own output: {}", e)),
+    }
+    // the same round trip through a format without type tags (bincode-like): only succeeds if the impls request
+    // exactly tuple(2) / i8 / seq / u32, in the shape that was written
+    match must_return("BigUint::deserialize (typed format)", || BigUint::deserialize(TypedDe(&want)))? {
+        Ok(v) => ctx(eq_bu(&v, &r.mag), "deserialize(serialize(BigUint)) through a non-self-describing format")?,
+        Err(e) => return Err(format!("BigUint does not round-trip through a non-self-describing format: {}", e)),
+    }
+    match must_return("BigInt::deserialize (typed format)", || BigInt::deserialize(TypedDe(&wanti)))? {
+        Ok(v) => ctx(eq_bi(&v, &r), "deserialize(serialize(BigInt)) through a non-self-describing format")?,
+        Err(e) => return Err(format!("BigInt does not round-trip through a non-self-describing format: {}", e)),
     }
     let nd = r.mag.to_u32_digits().len();
     Ok(Info::new(nd >= 2)
@@ -353,7 +457,7 @@ impl Property for C17 {
         "C17"
     }
     fn rule(&self) -> &'static str {
-        "Cases: ser (a value: the token stream emitted through a recording Serializer must be exactly seq(Some(len)) of the base-2^32 digits, least significant first, no trailing zero, zero = empty sequence; BigInt = tuple(i8 sign in {-1,0,1}, that sequence); deserializing the emitted stream returns the value) and de (a generated token stream fed through a replaying Deserializer: u32 lists with trailing zeros, odd/even length, empty; elements given as u32 or u64 tokens (in or out of u32 range) or a string; size hints exact / absent / half / usize::MAX / one too many / zero; sign tokens -1,0,1 and invalid values as i8, i64, u32 or a string; sign presented as an unsigned 64-bit token (so -1 arrives as u64::MAX); inconsistent sign vs magnitude; a 1-element tuple; and the same streams through Deserialize::deserialize_in_place over empty, short and long existing values). Results must be the canonical denoted value, or an error for invalid signs / non-u32 elements, never a panic. Values include top u64 digits with a zero high half and with a high half of 0xFFFFFFFF / low half all ones. Non-trivial: >= 2 u32 digits, or a padded or inconsistent stream."
+        "Cases: ser (a value: the token stream emitted through a recording Serializer must be exactly seq(Some(len)) of the base-2^32 digits, least significant first, no trailing zero, zero = empty sequence; BigInt = tuple(i8 sign in {-1,0,1}, that sequence); deserializing the emitted stream returns the value, both through a self-describing replay and through a typed, bincode-like one that only honours tuple(2)/i8/seq/u32 requests) and de (a generated token stream fed through a replaying Deserializer: u32 lists with trailing zeros, odd/even length, empty; elements given as u32 or u64 tokens (in or out of u32 range) or a string; size hints exact / absent / half / usize::MAX / one too many / zero; sign tokens -1,0,1 and invalid values as i8, i64, u32 or a string; sign presented as an unsigned 64-bit token (so -1 arrives as u64::MAX); inconsistent sign vs magnitude; a 1-element tuple; and the same streams through Deserialize::deserialize_in_place over empty, short and long existing values). Results must be the canonical denoted value, or an error for invalid signs / non-u32 elements, never a panic. Values include top u64 digits with a zero high half and with a high half of 0xFFFFFFFF / low half all ones. Non-trivial: >= 2 u32 digits, or a padded or inconsistent stream."
     }
     fn technique(&self) -> &'static str {
         "property-based testing (proptest) with a hand-written recording Serializer and token-replaying Deserializer (serde data model), RefInt digits as the oracle"
